@@ -27,10 +27,12 @@ Proof.
   - rewrite app_nth2 by assumption. rewrite (nth_overflow r) by assumption.
     destruct (j - length r)%nat as [|[|m]]; reflexivity.
 Qed.
+Lemma nth_repeat_lt' {A} (d v : A) : forall k t, (t < k)%nat -> nth t (repeat v k) d = v.
+Proof. induction k as [|k IH]; intros [|t] H; try lia; cbn; [reflexivity|apply IH; lia]. Qed.
 Lemma getQ_zrow n j : getQ (zrow (T:=Q) n) j == 0.
 Proof.
   unfold getQ, zrow. destruct (Nat.lt_ge_cases j n) as [H|H].
-  - rewrite nth_repeat_lt' by assumption. reflexivity.
+  - rewrite (nth_repeat_lt' 0 nzero) by assumption. reflexivity.
   - rewrite nth_overflow by (rewrite repeat_length; assumption). reflexivity.
 Qed.
 Lemma getQ_halve : forall r j, getQ (halve (T:=Q) r) j == getQ r j / 2.
